@@ -52,6 +52,10 @@ claim("C12",
       "type-set check of every value reaching match's type switch (through the any-typed forwarder) and case-set dominance of setOperation's call sites; CFG path counting and cycle check of item emissions per lexer state against the channel capacity; prefix-guard dominance of lexer position writes; no-progress-cycle search in every unbounded parser loop; termination certificates for every recursive SCC of package schema; length-guard check of row indexing; source agreement of the REST/gRPC error mappers and whole-content parsing in both handlers",
       "Decides the absence of the structural ways to panic or hang (explicit panics unreachable, bounded emissions, guarded position writes, loop progress, bounded recursion, guarded indexing) and REST/gRPC agreement of the syntax endpoints; does not decide linear running time. Right level: each is a path/shape fact of lexer, parser and handlers.")
 
+claim("C13",
+      "interprocedural forward taint of client-nullable pointers (JSON null elements / absent pointer fields, absent protobuf sub-messages and unset oneofs) from every entry point through calls, closures, variadic packing, append and internal holder structs, with dominance-based nil-test kills (same value, same field path, closure-creation site, validating loops), goroutine severity; herodot status resolution of every error returned/written on the failure branch of request-text parsers and of re-wrapped mapper errors; finite-domain evaluation of page-size normalisation; termination certificates for request-driven recursions",
+      "Decides the absence of request-controlled nil dereferences, 4xx classification of parse and mapping failures, page-size normalisation and bounded recursion on request input; does not decide state-unchanged-on-4xx or exhaustion. Right level: whether a nullable pointer is tested before use and which status an error value carries are dataflow facts.")
+
 for p in ["C04","C05","C06","C07","C08","C09","C11","C12","C13","C14","C16","C18","C19"]:
     na(p, NOTBUILT)
 na("C10", "semantic equivalence between the parser's output and TypeScript's grammar over all programs: precedence/associativity is not a code shape every correct parser shares; no sound structural necessary condition found (and the property is known to be violated: a||b&&c parses as (a||b)&&c), so a static green light would be misleading")
